@@ -118,6 +118,9 @@ TWCL ==
   /\ s' = IF s.wild THEN s ELSE WCLNext(s)
   /\ UNCHANGED << cfg, fr >> /\ Adv
 
+TWCP == /\ Is("WCP") /\ (s.wild \/ WCPAllowed(s, Ev.err, Ev.obs))
+        /\ UNCHANGED << cfg, fr, s >> /\ Adv
+
 TSRD == /\ Is("SRD") /\ Ev.err.cls = "nil" /\ UNCHANGED << cfg, fr, s >> /\ Adv
 
 TPanic == /\ Is("PANIC") /\ PanicAllowed(s)
@@ -125,7 +128,7 @@ TPanic == /\ Is("PANIC") /\ PanicAllowed(s)
 
 TInit == l = 1 /\ cfg = [role |-> "server"] /\ fr = << >> /\ s = S0
 
-TNext == TReset \/ TJA \/ TRJ \/ TWCL \/ TSRD \/ TPanic \/ TNR \/ TRD \/ TRA \/ TRM
+TNext == TReset \/ TJA \/ TRJ \/ TWCL \/ TWCP \/ TSRD \/ TPanic \/ TNR \/ TRD \/ TRA \/ TRM
 
 TSpec == TInit /\ [][TNext]_tvars
 
